@@ -2408,6 +2408,10 @@ where
     let size = (spec.max - spec.min) as u128 + 1;
     rep.count(&format!("leaky.{}.B{}.P{}", spec.sym, Pr::BITS, P));
     rep.count(&format!("leaky.dist.{}", spec.base.tokens().split(' ').next().unwrap()));
+    if tlo < 0 && (spec.max - spec.min) > thi {
+        // signed symbol type, support wider than Symbol::MAX: `symbol - min` does not fit `Symbol`
+        rep.count(&format!("any.leaky.signed-wide-support.{}.B{}.P{}", spec.sym, Pr::BITS, P));
+    }
     if spec.min == tlo || spec.max == thi {
         rep.count(if spec.min == tlo && spec.max == thi { "any.leaky.support.whole-type" } else { "any.leaky.support.touches-type-end" });
     }
@@ -2444,7 +2448,7 @@ where
         let mut fails: Vec<(&'static str, String)> = Vec::new();
         let model_f = quantizer.quantize(RecF { d: &built, hint: spec.hint, rec: &rec, inv: &inv });
         // encoder view: all symbols (or a contiguous window plus samples for huge supports)
-        let full = size <= 6000;
+        let full = size <= 66000;
         let syms: Vec<i128> = if full {
             (spec.min..=spec.max).collect()
         } else {
@@ -2491,34 +2495,64 @@ where
                 }
             }
         }
-        // C05: iterated symbol table == direct queries; generic conversions
+        // C05: iterated symbol table == direct queries; generic conversions.  Each runs under
+        // its own guard: a panic of the iterator (or of a conversion built on it) while every
+        // direct query succeeded is a failure of C05 / C03, not just "some panic"
         if full {
-            let it: Vec<Triple> = model_f
-                .symbol_table()
-                .map(|(s, c, p)| ((s.to_i128().unwrap() as u128) & ((1u128 << 64) - 1), to_u128(c), to_u128(p.get())))
-                .collect();
-            if it != table {
-                fails.push(("C05", "symbol_table() differs from left_cumulative_and_probability".into()));
-            }
-            let ge = model_f.to_generic_encoder_model();
-            let gd = model_f.to_generic_decoder_model();
-            for (i, &s) in syms.iter().enumerate() {
-                let g = ge.left_cumulative_and_probability(to_s(s)).map(|(c, p)| (to_u128(c), to_u128(p.get())));
-                if g != Some((table[i].1, table[i].2)) {
-                    fails.push(("C05", format!("to_generic_encoder_model differs at {}", s)));
-                    break;
+            set_case(&format!("{} | table -", replay));
+            let key = |s: S| (s.to_i128().unwrap() as u128) & ((1u128 << 64) - 1);
+            match guarded(|| model_f.symbol_table().map(|(s, c, p)| (key(s), to_u128(c), to_u128(p.get()))).collect::<Vec<Triple>>()) {
+                Err(class) => {
+                    let what = format!("symbol_table() panicked ({}) although left_cumulative_and_probability succeeds for every symbol of the support", class);
+                    fails.push(("C05", what.clone()));
+                    fails.push(("C03", what));
+                }
+                Ok(it) => {
+                    if it.len() != table.len() {
+                        fails.push(("C05", format!("symbol_table() yields {} entries, the support has {} symbols", it.len(), table.len())));
+                    } else if let Some(i) = (0..it.len()).find(|&i| it[i] != table[i]) {
+                        fails.push(("C05", format!(
+                            "symbol_table() entry {} is {:x}:{:x}:{:x} but left_cumulative_and_probability({}) = ({:x}, {:x})",
+                            i, it[i].0, it[i].1, it[i].2, syms[i], table[i].1, table[i].2
+                        )));
+                    }
                 }
             }
-            if ge.left_cumulative_and_probability(to_s((spec.min - 1).max(tlo))).is_some() && spec.min > tlo {
-                fails.push(("C09", "generic encoder accepts an out-of-support symbol".into()));
+            match guarded(|| model_f.to_generic_encoder_model()) {
+                Err(class) => {
+                    let what = format!("to_generic_encoder_model() panicked ({}) although every direct query succeeds", class);
+                    fails.push(("C05", what.clone()));
+                    fails.push(("C03", what));
+                }
+                Ok(ge) => {
+                    for (i, &s) in syms.iter().enumerate() {
+                        let g = ge.left_cumulative_and_probability(to_s(s)).map(|(c, p)| (to_u128(c), to_u128(p.get())));
+                        if g != Some((table[i].1, table[i].2)) {
+                            fails.push(("C05", format!("to_generic_encoder_model differs at {}", s)));
+                            break;
+                        }
+                    }
+                    if ge.left_cumulative_and_probability(to_s((spec.min - 1).max(tlo))).is_some() && spec.min > tlo {
+                        fails.push(("C09", "generic encoder accepts an out-of-support symbol".into()));
+                    }
+                }
             }
-            let mut r3 = rng.fork();
-            for q in quantiles_for(&mut r3, P as u32, &table, 300) {
-                let (s, c, p) = gd.quantile_function(from_u128(q));
-                let got = Some(((s.to_i128().unwrap() as u128) & ((1u128 << 64) - 1), to_u128(c), to_u128(p.get())));
-                if got != table_find(&table, q) {
-                    fails.push(("C05", format!("to_generic_decoder_model differs at quantile {:x}", q)));
-                    break;
+            match guarded(|| model_f.to_generic_decoder_model()) {
+                Err(class) => {
+                    let what = format!("to_generic_decoder_model() panicked ({}) although every direct query succeeds", class);
+                    fails.push(("C05", what.clone()));
+                    fails.push(("C03", what));
+                }
+                Ok(gd) => {
+                    let mut r3 = rng.fork();
+                    for q in quantiles_for(&mut r3, P as u32, &table, 300) {
+                        let (s, c, p) = gd.quantile_function(from_u128(q));
+                        let got = Some((key(s), to_u128(c), to_u128(p.get())));
+                        if got != table_find(&table, q) {
+                            fails.push(("C05", format!("to_generic_decoder_model differs at quantile {:x}", q)));
+                            break;
+                        }
+                    }
                 }
             }
         }
